@@ -114,6 +114,10 @@ pub fn check_fv(pool: &ProbePool, ov: &[(usize, u32, u32)], c: &FvCase) -> Verdi
         "err" => {
             let calls = r["calls"].as_array().map(|a| a.len()).unwrap_or(0);
             let after = r["msg"].as_str().map(gen::unhex).unwrap_or_default();
+            // whatever the outcome, nothing but the last n bytes may ever change
+            if !too_short && (after.len() != msg.len() || after[..msg.len() - n] != msg[..msg.len() - n]) {
+                return fail("message-body-changed", format!("sign_mut failed and changed bytes outside the last n bytes ({})", what));
+            }
             if negative {
                 // refused inputs stay untouched (a rejected callback happens after the search and
                 // may leave the trailer modified - the property does not forbid that)
@@ -213,6 +217,12 @@ pub fn run(ctx: &Ctx) {
                         for rep in 0..reps {
                             let counter = match (li + rep as usize) % 3 { 0 => 0, 1 => total - 1, _ => total / 2 };
                             cases.push(FvCase { config: name.clone(), hash: h, levels: levels.clone(), counter, len: *len, tag: (li as u64) << 8 | rep as u64, dirty_trailer: None, accept: !(rep == 1 && li % 3 == 0), rep, aux_budget: None });
+                        }
+                    }
+                    // messages longer than 64 KiB (lengths around multiples of 65536)
+                    if si == 0 && (w == 4 || w == 1) {
+                        for (k, len) in [65_536usize, 65_536 + 20, 65_537 + n, 131_072 + 5, 200_000].iter().enumerate() {
+                            cases.push(FvCase { config: name.clone(), hash: h, levels: levels.clone(), counter: k as u64 % total, len: *len, tag: 0xb0 + k as u64, dirty_trailer: None, accept: k != 3, rep: 0, aux_budget: None });
                         }
                     }
                     // with aux data: small, and large enough to cache the leaf level of the signing tree
